@@ -48,6 +48,7 @@ pub fn gencfg(prop: &str, tier: &str, rng: &mut Rng) -> GenCfg {
         iter_all: 1,
         iter_step: 3,
         extend: 1,
+        collect: 0,
     };
     match prop {
         "C01" => {
@@ -55,6 +56,7 @@ pub fn gencfg(prop: &str, tier: &str, rng: &mut Rng) -> GenCfg {
         }
         "C03" | "C04" => {
             g.mix = everything;
+            g.mix.collect = 2;
             g.pressure = true;
             g.hold_guard = 70;
             g.allow_set = prop == "C04";
@@ -389,6 +391,7 @@ pub fn judge(prop: &str, p: &Program, r: &RunResult, opts: &ExecOpts, js: &mut J
         "C01" => out.extend(run_lin(p, r, js)),
         "C03" => {
             out.extend(oracle::memory(r));
+            out.extend(oracle::collects(r));
             js.bump("references_checked", r.refs_checked);
         }
         "C04" => {
